@@ -416,7 +416,7 @@ impl Scenario for RouteSc {
 
 pub fn cfgs(tier: &str) -> Vec<(RouteCfg, Bounds)> {
     let q = tier == "quick";
-    let wall = Duration::from_secs(if q { 10 } else { 200 });
+    let wall = Duration::from_secs(if q { 150 } else { 900 });
     let mut v = vec![];
     let mut add = |shape: Shape, routes: Routes, src: usize, dst: usize, d: usize| {
         v.push((
